@@ -5,6 +5,7 @@
   Scalars: any linearly ordered field with a floor (`roundMax1 x = max 1 ⌊x + 1/2⌋₊`).
   Helper lemmas live in `Jb/Proofs/Duration.lean`; this file holds only the property theorems.
 -/
+import Jb.Proofs.Total
 import Jb.Proofs.Duration
 import Mathlib.Data.Rat.Floor
 import Mathlib.Tactic.NormNum
@@ -57,5 +58,18 @@ theorem create_antitone (ps : List (MeanVari K)) (s s' : K) (d d' : List Nat) (h
     the one-frame-per-state floor. -/
 example : durationCreate ([⟨2, 1⟩, ⟨4, 1⟩, ⟨6, 2⟩] : List (MeanVari ℚ)) 1 true = .ok [2, 4, 6] := by
   rw [create_one]; norm_num [Nat.floor_eq_iff]
+
+/-- **Speaking rate scales the utterance** — for the whole pipeline model: at speed `s ≠ 1` (no alignment) synthesis
+    returns exactly `frame_period × max(round(F1/s), number of states)` samples, `F1` the speed-1 frame count. -/
+theorem synthesize_length_at_speed [Transc K] [Consts K] [MlpgConsts K] (fx : Fix) (c : Condition K) (inp : EngineIn K)
+    (hwf : EngineWF c inp) (halign : c.alignment = false) (hne : inp.duration ≠ []) :
+    ∃ w, engineSynthesize fx c false inp = .ok w ∧
+      w.length = c.fperiod * max (RoundNat.roundMax1 ((F1 inp.duration : K) / c.speed)) inp.duration.length := by
+  obtain ⟨durs, w, h1, _, _, h4, h5⟩ := engineSynthesize_total fx c inp hwf false
+  refine ⟨w, h4, ?_⟩
+  have hd : durationCreate inp.duration c.speed false = .ok durs := by
+    unfold engineDurations at h1
+    simpa [halign] using h1
+  rw [h5, create_total inp.duration c.speed durs hne hd]
 
 end Jb.C08
